@@ -53,7 +53,7 @@ pub trait World: Clone + Send + Sync {
         format!("{a:?}")
     }
     /// abstract form of an action used inside violation signatures (no concrete ids / values)
-    fn sig_label(a: &Self::Act) -> String {
+    fn sig_label(&self, a: &Self::Act) -> String {
         Self::label(a)
     }
     /// invariant evaluated on every newly discovered state (after `step`)
@@ -187,7 +187,7 @@ impl<'a, W: World> Explorer<'a, W> {
                     if let Err(msg) = r {
                         so.violations.push((
                             "panic".into(),
-                            format!("panic|{}|{}", crate::util::panic_sig(&msg), W::sig_label(a)),
+                            format!("panic|{}|{}", crate::util::panic_sig(&msg), w.sig_label(a)),
                             format!("panic: {msg}"),
                         ));
                     }
